@@ -35,6 +35,8 @@ def network_spec(seed, idx_kind, base, order_seed):
     vn = {1: vb, 2: vb * 2.0, 3: vb * 0.95}[base]
     kz = (vn ** 2 / sn) / (vb ** 2 / 100.0)         # textbook factor: the same *physical* branch in another device base
     def bid(i):
+        if idx_kind == "mixed":                     # numbers and a string in one index column
+            return i if i < n else "B%d" % i
         return i if idx_kind == "int" else "B%d" % i
     edges = [(i, i + 1) for i in range(1, n)]
     if rnd.random() < 0.7:
@@ -47,19 +49,19 @@ def network_spec(seed, idx_kind, base, order_seed):
         r, x, bc = rnd.choice([0.01, 0.02, 0.005]), rnd.choice([0.1, 0.08, 0.15]), rnd.choice([0.0, 0.04, 0.1])
         b1, b2 = rnd.choice([0.0, 0.02]), rnd.choice([0.0, 0.05])
         tap, phi = rnd.choice([1.0, 1.0, 1.05, 0.975]), rnd.choice([0.0, 0.0, 0.05])
-        rest.append(dict(model="Line", idx=(k + 1 if idx_kind == "int" else "L%d" % (k + 1)), bus1=bid(a), bus2=bid(b),
+        rest.append(dict(model="Line", idx=(k + 1 if idx_kind in ("int", "mixed") else "L%d" % (k + 1)), bus1=bid(a), bus2=bid(b),
                          Sn=sn, Vn1=vn, Vn2=vn, r=r / kz, x=x / kz, b=bc * kz, b1=b1 * kz, b2=b2 * kz, tap=tap, phi=phi,
                          trans=int(tap != 1.0 or phi != 0.0), u=1))
-    rest.append(dict(model="Slack", idx=(100 if idx_kind == "int" else "S1"), bus=bid(1), Vn=vb, v0=1.02, a0=0.0, p0=0.2, q0=0.0))
+    rest.append(dict(model="Slack", idx=(100 if idx_kind in ("int", "mixed") else "S1"), bus=bid(1), Vn=vb, v0=1.02, a0=0.0, p0=0.2, q0=0.0))
     if n >= 4:
-        rest.append(dict(model="PV", idx=(101 if idx_kind == "int" else "G1"), bus=bid(n), Vn=vb, Sn=sn, v0=1.01, p0=0.3,
+        rest.append(dict(model="PV", idx=(101 if idx_kind in ("int", "mixed") else "G1"), bus=bid(n), Vn=vb, Sn=sn, v0=1.01, p0=0.3,
                          q0=0.0, qmax=99, qmin=-99))      # PV.p0 is documented to be in the system base
     for j in range(2, n + 1):
         # PQ has no device MVA base: its powers are in the system base
-        rest.append(dict(model="PQ", idx=(200 + j if idx_kind == "int" else "D%d" % j), bus=bid(j), Vn=vb,
+        rest.append(dict(model="PQ", idx=(200 + j if idx_kind in ("int", "mixed") else "D%d" % j), bus=bid(j), Vn=vb,
                          p0=rnd.choice([0.1, 0.2, 0.15]), q0=rnd.choice([0.02, 0.05])))
     rest.append(dict(model="PQ", idx=(299 if idx_kind == "int" else "D9"), bus=bid(2), Vn=vb, p0=0.05, q0=0.01))   # two loads on one bus
-    rest.append(dict(model="Shunt", idx=(300 if idx_kind == "int" else "H1"), bus=bid(n), Vn=vn, Sn=sn, b=0.05 * kz, g=0.0))
+    rest.append(dict(model="Shunt", idx=(300 if idx_kind in ("int", "mixed") else "H1"), bus=bid(n), Vn=vn, Sn=sn, b=0.05 * kz, g=0.0))
     rest.append(dict(model="Line", idx=(90 if idx_kind == "int" else "Loff"), bus1=bid(1), bus2=bid(n), Sn=sn, Vn1=vn, Vn2=vn,
                      r=0.01 / kz, x=0.1 / kz, u=0))                                                         # an offline branch
     random.Random(order_seed).shuffle(rest)
@@ -240,6 +242,20 @@ def jac_stock(sc):
                 v = float(par.vin[k]) if par.vin is not None else float(par.v[k])
                 mdl.alter(pname, mdl.idx.v[k], v * 1.7 + 0.1)
     n, m = dae.n, dae.m
+    # the mass matrix of the step equations (dae.Tf in the residual, TDS.Teye in the step Jacobian) carries the time constants
+    # the models have now
+    rec["mass_current"] = True
+    if sc["phase"] == "tds" and dae.n:
+        Tm = np.ones(dae.n)
+        for mdl in models.values():
+            if mdl.n == 0:
+                continue
+            for st in mdl.states.values():
+                if st.t_const is not None:
+                    Tm[np.asarray(st.a, dtype=int)] = np.asarray(st.t_const.v, dtype=float)
+        teye = ss.TDS.Teye
+        td = np.array([teye[i, i] for i in range(dae.n)]) if teye is not None and teye.size[0] == dae.n else Tm
+        rec["mass_current"] = bool(np.array_equal(np.asarray(dae.Tf, dtype=float), Tm) and np.array_equal(td, Tm))
     def flags():
         out = []
         for mdl in models.values():
